@@ -581,3 +581,133 @@ func TestVerifC01ConcurrentAuth(t *testing.T) {
 		}
 	}
 }
+
+// TestVerifC01Generations: "acceptance on one connection never authorises another" also over TIME:
+// connections come and go on one server; whatever per-connection state the server keeps (or recycles)
+// from an authenticated connection that has ended must not authorise a later one. Each round: a few
+// connections authenticate, proxy something, and close; after they are gone, fresh connections that
+// never authenticate fire 0x401 streams, datagrams and a rejected auth. Same log oracle as above.
+// GOMAXPROCS(1) for this part only: object pools hand a just-released object to the next taker.
+func TestVerifC01Generations(t *testing.T) {
+	k := vfNewKit(t, "C01", "c01-generations")
+	defer k.Finish()
+	defer debug.SetGCPercent(debug.SetGCPercent(-1))
+	defer runtime.GOMAXPROCS(runtime.GOMAXPROCS(1))
+	n := k.N(6, 60)
+	for i := 0; i < n; i++ {
+		caseID := fmt.Sprintf("c01g-%d", i)
+		if rc := k.ReplayCase(); rc != "" && rc != caseID {
+			continue
+		}
+		r := k.Rand(caseID)
+		runtime.GC()
+		k.Eval()
+		rounds := 3 + r.Intn(4)
+		synctest.Test(t, func(t *testing.T) {
+			w, err := vfNewWorld(vfServerOpts{Latency: time.Duration(1+r.Intn(10)) * time.Millisecond})
+			if err != nil {
+				t.Fatalf("harness: server: %v", err)
+			}
+			w.Out.OnTCP = func(addr string) (net.Conn, error) {
+				pt := vfNewPipeTarget()
+				go func() { _, _ = pt.Harness.Write([]byte("GREETING-FROM-" + addr)) }()
+				w.onClose(func() { _ = pt.Harness.Close() })
+				return pt.serverSide, nil
+			}
+			w.Out.OnUDP = func(addr string) (server.UDPConn, error) {
+				s := vfNewSinkUDP(w.Log, addr)
+				s.Reply([]byte("UDP-GREETING-"+addr), addr)
+				return s, nil
+			}
+			var c vfC01Case
+			c.CaseID = caseID
+			var states []*vfC01ConnState
+			kk := 0
+			for round := 0; round < rounds; round++ {
+				// generation A: authenticate, use, close
+				na := 1 + r.Intn(3)
+				var gen []*vfRaw
+				for j := 0; j < na; j++ {
+					kk++
+					raw, err := w.RawClient()
+					if err != nil {
+						t.Fatalf("harness: raw client: %v", err)
+					}
+					st := &vfC01ConnState{tag: raw.Tag}
+					states = append(states, st)
+					c.Conns = append(c.Conns, vfC01ConnScript{K: kk, Actions: []vfC01Action{{Kind: "auth_good", N: 1}, {Kind: "stream", N: 2}, {Kind: "close", N: 3}}})
+					if resp := raw.AuthReq(fmt.Sprintf("ok:u%d", kk), "0"); resp.Status == 233 {
+						st.everOK = true
+					}
+					addr := fmt.Sprintf("c%dx2.verif:80", kk)
+					st.afterAuthTCP = append(st.afterAuthTCP, addr)
+					if s, err := raw.ProxyStream(addr); err == nil {
+						b, _ := vfReadSome(s, 200*time.Millisecond)
+						st.streamBytes += int64(len(b))
+						s.CancelRead(0)
+						_ = s.Close()
+					}
+					gen = append(gen, raw)
+				}
+				for _, raw := range gen {
+					raw.Close()
+				}
+				time.Sleep(time.Duration(50+r.Intn(300)) * time.Millisecond) // the server notices and finishes the handlers
+				synctest.Wait()
+				// generation B: never authenticates
+				nb := 1 + r.Intn(3)
+				for j := 0; j < nb; j++ {
+					kk++
+					raw, err := w.RawClient()
+					if err != nil {
+						t.Fatalf("harness: raw client: %v", err)
+					}
+					st := &vfC01ConnState{tag: raw.Tag}
+					states = append(states, st)
+					c.Conns = append(c.Conns, vfC01ConnScript{K: kk, Actions: []vfC01Action{{Kind: "stream", N: 1}, {Kind: "dgram", N: 2}, {Kind: "auth_bad", N: 3}, {Kind: "stream", N: 4}}})
+					dctx, dcancel := context.WithCancel(context.Background())
+					w.onClose(dcancel)
+					go func() {
+						for {
+							if _, err := raw.Conn.ReceiveDatagram(dctx); err != nil {
+								return
+							}
+							st.mu.Lock()
+							st.dgramsRecv++
+							st.mu.Unlock()
+						}
+					}()
+					probe := func(nn int) {
+						if s, err := raw.ProxyStream(fmt.Sprintf("c%dx%d.verif:80", kk, nn)); err == nil {
+							_, _ = s.Write([]byte("probe"))
+							b, _ := vfReadSome(s, 200*time.Millisecond)
+							st.mu.Lock()
+							st.streamBytes += int64(len(b))
+							st.mu.Unlock()
+							s.CancelRead(0)
+							_ = s.Close()
+						}
+					}
+					probe(1)
+					_ = raw.Conn.SendDatagram(vfUDPMessageBytes(uint32(j+1), 0, 0, 1, fmt.Sprintf("c%dx2.verif:53", kk), []byte("unauth-dgram")))
+					if resp := raw.AuthReq(fmt.Sprintf("bad-c%d", kk), "0"); resp.Status == 233 {
+						st.mu.Lock()
+						st.saw233 = true
+						st.mu.Unlock()
+					}
+					probe(4)
+					k.Count("ev_later_unauthenticated_connections", 1)
+				}
+			}
+			time.Sleep(time.Second)
+			synctest.Wait()
+			evs := w.Log.Snapshot()
+			w.Close()
+			vfC01Judge(k, c, states, evs)
+			k.Nontrivial(fmt.Sprintf("%s/%d/%d", caseID, rounds, kk))
+			if i == 0 {
+				k.Sample(map[string]any{"case_id": caseID, "rounds": rounds, "connections": kk})
+			}
+		})
+	}
+}
